@@ -40,12 +40,13 @@ ALPHA = {
     "CLOSE_a": ["CLOSE", "a"],
     "CLOSE_b": ["CLOSE", "b"],
     "CLOSE_zz": ["CLOSE", "zz"],
+    "CLOSE_5": ["CLOSE", 5],
     "EVENT_e1": ["EVENT", E1],
     "EVENT_e2": ["EVENT", E2],
     "DROP": DROP,
 }
 QUICK_ALPHA = ["REQ_a_k1", "REQ_b_k2", "REQ_a_k2", "REQ_c_k1", "REQ_a_invalid", "REQ_b_valid_invalid", "REQ_b_valid_emptytag", "REQ_a_unhashable", "REQ_5_k1",
-               "CLOSE_a", "CLOSE_zz", "EVENT_e1", "EVENT_e2", "DROP"]
+               "CLOSE_a", "CLOSE_zz", "CLOSE_5", "EVENT_e1", "EVENT_e2", "DROP"]
 
 
 def seq_cases(tier):
